@@ -91,7 +91,7 @@ pub fn gen_lscn(rng: &mut Rng, exec: u64, kind: Option<LKind>, no_chaos: bool) -
     async_loader: rng.chance(1, 2),
     keys: rng.range(1, 3),
     waves: rng.range(2, 5) as usize,
-    profile: if no_chaos { chaos::Profile::OFF } else { chaos::Profile::pick(rng) },
+    profile: if no_chaos { chaos::Profile::OFF } else { pick_profile(rng) },
   }
 }
 
@@ -335,6 +335,7 @@ impl Exec {
       let gap = canary.max_gap_us();
       let running = self.ctx.running();
       let before = self.finished.load(Ordering::SeqCst);
+      let blocked: Vec<Value> = self.calls.lock().unwrap().iter().filter(|c| c.ret == 0).map(|c| c.to_json()).collect();
       let forced0 = vh_core::stepper::FORCED_READY.load(Ordering::SeqCst);
       vh_core::stepper::FORCE_POLL.store(true, Ordering::SeqCst);
       for _ in 0..3 {
@@ -345,7 +346,6 @@ impl Exec {
       }
       vh_core::stepper::FORCE_POLL.store(false, Ordering::SeqCst);
       let after = self.finished.load(Ordering::SeqCst);
-      let blocked: Vec<Value> = self.calls.lock().unwrap().iter().filter(|c| c.ret == 0).map(|c| c.to_json()).collect();
       return Some(Stuck {
         blocked,
         loader_running: running,
@@ -488,6 +488,10 @@ pub fn run(scn: LScn, canary: &Canary, quiet: Duration) -> LOutcome {
           } else if kl.is_empty() && was_missing {
             push(&mut findings, "single-flight/no-load-for-miss/wave",
               format!("key {} was absent (never loaded / invalidated / expired) yet {} fetch_with callers returned without any loader invocation", k, kc.len()), detail());
+          } else if !was_missing && kl.len() == 1 {
+            // a resident key was loaded again: the register may forget, callers may then
+            // legitimately hold the old or the new value; nothing to conclude
+            counters.push(("resident_key_reloaded".into(), 1));
           } else {
             // one load (or pure hits): everybody must hold the same Arc
             let p0 = kc[0].ptr;
@@ -594,9 +598,17 @@ pub fn run(scn: LScn, canary: &Canary, quiet: Duration) -> LOutcome {
             inconclusive.push("independence: stuck window without blocked B callers".into());
           } else if st2.is_some() && st2.as_ref().unwrap().still_blocked {
             // did not even finish after the gate opened: plain stuck, classified below
+          } else if st.nudge_released {
+            // a spurious wake / re-poll was enough: not a dependency on key A but a lost wake-up
+            if b_loader_running {
+              inconclusive.push("independence: nudge released callers while a B loader was still running".into());
+            } else {
+              let mut st_b = st;
+              st_b.loader_running = 0; // only A's gated invocation is running, by construction
+              stuck_verdict(&st_b, "independence, while another key's loader was held", &mut findings, &mut inconclusive, &scn);
+            }
           } else {
             let var = if blocked_keys.iter().all(|&k| k == same) { "same-stripe" } else if blocked_keys.iter().all(|&k| Some(k) == other) { "other-stripe" } else { "both-stripes" };
-            let _ = b_loader_running;
             push(&mut findings, &format!("independence/blocked-by-other-key/{}", var),
               format!("fetch_with on key(s) {:?} stayed blocked through 3 quiet windows while the loader of key {} was held, and completed once it was released", blocked_keys, a),
               json!({"scenario": scn.describe(), "stuck_while_gated": format!("{:?}", st), "gated_key": a, "same_stripe_key": same, "other_stripe_key": other}));
